@@ -13,6 +13,10 @@ var c04TokType = NewType("c04tok", "")
 
 func (t *c04Tok) Type() *Type { return c04TokType }
 
+// tokens compare by identity
+func (t *c04Tok) M__eq__(o Object) (Object, error) { return NewBool(Object(t) == o), nil }
+func (t *c04Tok) M__ne__(o Object) (Object, error) { return NewBool(Object(t) != o), nil }
+
 //verif:property C04
 //verif:maporder
 //verif:expect parsed
